@@ -31,7 +31,7 @@ func checker(target string, always bool) func(c byteCase, o *kit.Obs) error {
 			return fmt.Errorf("%w: case of %d bytes exceeds the 4 KiB domain", kit.ErrInfra, len(c.Data))
 		}
 		var rep report
-		excluded, err := checkTarget(target, c.Data, exclusions{offPolygon: kit.Excluded(offTag), offPrealloc: kit.Excluded(offPreallocTag)}, &rep)
+		excluded, err := checkTarget(target, c.Data, exclusions{offPolygon: kit.Excluded(offTag)}, &rep)
 		for _, tag := range excluded {
 			kit.CountExcluded(tag)
 			o.Label("excluded:" + tag)
